@@ -23,8 +23,14 @@ package main
 //	verdict = ok | fail:<reason>: the expectation names the touched fields and their values by the
 //	          documented precedence; every other field must equal NewOptions()'s default.
 //
+// Expectations: "ok Field=<val>;…" | "exit <code>" | "panic" | "refused-or ok Field=<val>;…" (a command
+// line with a word that is neither a flag nor the value of one — a boolean written `-key value`, a stray
+// word, words behind "--": the process either refuses to start, "exit 2", or every setting has the value
+// the documented precedence gives, the command line's where it names the key; started with anything else
+// is a failure) | "child" (no verdict: the case may end the process, model against code only).
+//
 // Cases expected to end the process (log.Fatal in getEnv, flag errors, -h) or to panic (the code may
-// reach flag.Parse and exit instead) run in a child process.
+// reach flag.Parse and exit instead), and those that may end it, run in a child process.
 
 import (
 	"bufio"
@@ -192,6 +198,16 @@ func verifRunOptions(c verifOptCase) (out string) {
 }
 
 func verifOptionsOracle(impl, expect string) string {
+	if strings.HasPrefix(expect, "refused-or ") {
+		if impl == "exit 2" {
+			return "ok"
+		}
+		v := verifOptionsOracle(impl, strings.TrimPrefix(expect, "refused-or "))
+		if v != "ok" {
+			v += " (not refused: the command line holds a word that is neither a flag nor the value of one)"
+		}
+		return v
+	}
 	if !strings.HasPrefix(expect, "ok") {
 		if impl == expect {
 			return "ok"
@@ -298,7 +314,7 @@ func TestVerifOptions(t *testing.T) {
 			}
 		}
 		var impl string
-		if strings.HasPrefix(expect, "exit") || expect == "panic" {
+		if strings.HasPrefix(expect, "exit") || expect == "panic" || strings.HasPrefix(expect, "refused-or ") || expect == "child" {
 			cmd := exec.Command(self, "-test.run=^TestVerifOptions$")
 			env := []string{}
 			for _, kv := range os.Environ() {
@@ -327,7 +343,7 @@ func TestVerifOptions(t *testing.T) {
 			impl = verifRunOptions(c)
 		}
 		verdict := ""
-		if expect != "" {
+		if expect != "" && expect != "child" {
 			verdict = verifOptionsOracle(impl, expect)
 		}
 		fmt.Fprintf(fo, "%s\t%s\n", impl, verdict)
